@@ -542,9 +542,13 @@ class Interp(object):
             return dag.ipow(a[0], int(a[1]))
         if name == "llvm.fmuladd.f64" or name == "llvm.fma.f64" or name == "fma":
             return dag.add(dag.mul(a[0], a[1]), a[2])
-        if name in ("llvm.smax.i32", "llvm.smax.i64"):
+        if name in ("llvm.smax.i32", "llvm.smax.i64", "llvm.umax.i32", "llvm.umax.i64"):
+            if name.startswith("llvm.umax") and (a[0] < 0 or a[1] < 0):
+                raise Unsupported("umax of negative values")
             return max(a[0], a[1])
-        if name in ("llvm.smin.i32", "llvm.smin.i64"):
+        if name in ("llvm.smin.i32", "llvm.smin.i64", "llvm.umin.i32", "llvm.umin.i64"):
+            if name.startswith("llvm.umin") and (a[0] < 0 or a[1] < 0):
+                raise Unsupported("umin of negative values")
             return min(a[0], a[1])
         if name in ("llvm.abs.i32", "llvm.abs.i64"):
             return abs(a[0])
